@@ -217,6 +217,9 @@ type treeStats struct {
 }
 
 func (t *treeRun) violate(prop, rule, msg string) {
+	if prop == "C16" && t.stats.reopens == 0 {
+		prop = "C10" // nothing was reopened yet: plain map behaviour
+	}
 	if len(t.viol) < 16 {
 		t.viol = append(t.viol, Violation{Prop: prop, Rule: rule, Msg: fmt.Sprintf("op %d (%s): %s", t.opIdx, TOpNames[t.plan.Ops[min(t.opIdx, len(t.plan.Ops)-1)].K], msg), Seq: uint64(t.opIdx)})
 	}
